@@ -225,6 +225,17 @@ impl V {
         }
     }
 
+    /// Remove through the shared vector behind a local vector (None for non-local kinds).
+    fn shared_remove_list(&mut self, vals: &[&str]) -> Option<Result<(), String>> {
+        let e = |e: prometheus::Error| e.to_string();
+        match self {
+            V::LC(v, _) => Some(v.remove_label_values(vals).map_err(e)),
+            V::LIC(v, _) => Some(v.remove_label_values(vals).map_err(e)),
+            V::LH(v, _) => Some(v.remove_label_values(vals).map_err(e)),
+            _ => None,
+        }
+    }
+
     fn remove_map(&mut self, m: &HashMap<&str, &str>) -> Result<(), String> {
         let e = |e: prometheus::Error| e.to_string();
         match self {
@@ -478,6 +489,44 @@ fn all_in_one(cfg: &Config, pool: &[&'static str], calls: &mut u64) -> Option<(S
     None
 }
 
+/// Scenario 3 (local kinds): the child is removed behind the local vector's back, the local vector's own
+/// removal then fails, and the tuple is requested again: it must address the child the shared vector now holds.
+fn local_reattach(cfg: &Config, pool: &[&'static str], calls: &mut u64) -> Option<(String, String)> {
+    let arity = cfg.names.len();
+    ARITY.with(|a| a.set(arity));
+    let tuples: Vec<Vec<&'static str>> = combi::sequences(pool.len(), arity).map(|ix| ix.iter().map(|&i| pool[i]).collect()).collect();
+    for t in tuples.iter().take(60) {
+        let mut v = match V::new(cfg) {
+            Ok(v) => v,
+            Err(e) => return Some(("constructor".into(), e)),
+        };
+        if !v.is_local() {
+            return None;
+        }
+        *calls += 6;
+        if v.bump_list(t, 1).is_err() {
+            return Some(("valid-request-refused".into(), format!("{:?}", t)));
+        }
+        match v.shared_remove_list(t) {
+            Some(Ok(())) => {}
+            other => return Some(("remove-existing-refused".into(), format!("shared remove of {:?}: {:?}", t, other))),
+        }
+        if v.remove_list(t).is_ok() {
+            return Some(("remove-twice-accepted".into(), format!("local remove of {:?} after the shared vector removed it", t)));
+        }
+        if v.bump_list(t, 2).is_err() {
+            return Some(("valid-request-refused".into(), format!("{:?} after removal", t)));
+        }
+        v.flush();
+        let mut model: Model = BTreeMap::new();
+        model.insert(t.iter().map(|s| s.to_string()).collect(), (2.0, 1));
+        if let Some((c, d)) = compare(cfg, &v, &model, &format!("local vector: {:?} updated, removed through the shared vector, local remove failed, updated again", t)) {
+            return Some((format!("local-reattach:{}", c), d));
+        }
+    }
+    None
+}
+
 /// Scenario 2: every ordered pair of tuples in a fresh vector.
 fn pairwise(cfg: &Config, pool: &[&'static str], calls: &mut u64, rep: &mut Report) -> Option<(String, String)> {
     let arity = cfg.names.len();
@@ -570,7 +619,7 @@ fn main() {
         std::process::exit(1);
     }
     rep.rule = format!(
-        "for each of 8 vector kinds x label-name configurations (arity 1..3, sorted and unsorted declaration order, with/without constant labels): (1) all tuples of POOL^arity requested in one vector by list form and by map form (every key insertion order), distinct increments, wrong-arity / wrong-key requests, removal by both forms; (2) every ordered pair of tuples in a fresh vector. POOL={:?} (quick uses the first 11 values for arity 3 and for arity-2 pairs; pairs of arity 3 use the first 6). distinct = distinct (kind, config, scenario, children) outcome classes",
+        "for each of 8 vector kinds x label-name configurations (arity 1..3, sorted and unsorted declaration order, with/without constant labels): (1) all tuples of POOL^arity requested in one vector by list form and by map form (every key insertion order), distinct increments, wrong-arity / wrong-key requests, removal by both forms; (2) every ordered pair of tuples in a fresh vector; (3) local kinds: child removed through the shared vector, local removal fails, tuple requested again. POOL={:?} (quick uses the first 11 values for arity 3 and for arity-2 pairs; pairs of arity 3 use the first 6). distinct = distinct (kind, config, scenario, children) outcome classes",
         POOL
     );
     rep.bounds = json!({"pool_size": POOL.len(), "arities": [1,2,3], "kinds": KINDS.iter().map(|k| format!("{:?}", k)).collect::<Vec<_>>()});
@@ -578,6 +627,20 @@ fn main() {
         for (names, consts) in configs(arity) {
             for &kind in &KINDS {
                 let cfg = Config { kind, names: names.clone(), consts: consts.clone() };
+                {
+                    let pool = pool_for(arity, true);
+                    let mut calls = 0u64;
+                    rep.evaluations += 1;
+                    let r = watchdog::case(|| format!("local-reattach {:?}", cfg), || catch(|| local_reattach(&cfg, &pool, &mut calls)));
+                    rep.transitions += calls;
+                    match r {
+                        Ok(None) => {}
+                        Ok(Some((class, detail))) => {
+                            rep.violation(format!("{}:{:?}:arity{}", class, kind, arity), format!("{:?} names {:?}: {}", kind, names, detail), json!({"engine":"enum","config": cfg_json(&cfg), "scenario": "local-reattach", "pool": pool, "detail": detail}));
+                        }
+                        Err(p) => rep.violation(format!("panic:{:?}", kind), p.clone(), json!({"detail": p})),
+                    }
+                }
                 for pair in [false, true] {
                     if pair && arity == 3 && !thorough {
                         continue;
